@@ -203,7 +203,7 @@ pub fn def() -> PropertyDef {
         subs: vec![sub(
             "F/two-runs",
             |ctx: &RunCtx| lattice(if ctx.tier == Tier::Quick { 512 } else { 2048 }, 32),
-            (3000, 100_000),
+            (30_000, 400_000),
             |ctx: &RunCtx, f: Option<&Cfg>| {
                 let cfg = match f {
                     Some(c) => Just(*c).boxed(),
